@@ -23,6 +23,8 @@ pub const REPS: &[char] = &[
 pub const ENC_REPS: &[char] = &['U', 'z', '8', '.', '_', '-', ':', '+', '\u{E9}', '!', '\u{FF21}'];
 
 const USAGES: &[&str] = &["element", "attribute", "pi-target", "entity", "encoding"];
+/// names inside the declarations of an internal subset (generated and enumerated like USAGES[..4]; not swept)
+const DECL_USAGES: &[&str] = &["attlist-attribute", "attlist-element", "element-decl", "notation", "doctype-name"];
 
 fn class_of(c: char) -> char {
     if c == ':' {
@@ -49,6 +51,11 @@ fn document_for(usage: &str, s: &str) -> String {
         "pi-target" => format!("<?{} d?><e/>", s),
         "entity" => format!("<!DOCTYPE e [<!ENTITY {} \"v\">]><e>&{};</e>", s, s),
         "encoding" => format!("<?xml version=\"1.0\" encoding=\"{}\"?><e/>", s),
+        "attlist-attribute" => format!("<!DOCTYPE e [<!ATTLIST e {} CDATA #IMPLIED>]><e/>", s),
+        "attlist-element" => format!("<!DOCTYPE e [<!ATTLIST {} a CDATA #IMPLIED>]><e/>", s),
+        "element-decl" => format!("<!DOCTYPE e [<!ELEMENT {} ANY>]><e/>", s),
+        "notation" => format!("<!DOCTYPE e [<!NOTATION {} SYSTEM \"s\">]><e/>", s),
+        "doctype-name" => format!("<!DOCTYPE {}><e/>", s),
         _ => String::new(),
     }
 }
@@ -56,8 +63,8 @@ fn document_for(usage: &str, s: &str) -> String {
 /// Some(expected accept) or None when the candidate is not judged
 fn expected(usage: &str, s: &str) -> Option<bool> {
     match usage {
-        "element" | "attribute" => Some(chars::is_qname(s)),
-        "pi-target" | "entity" => {
+        "element" | "attribute" | "attlist-attribute" | "attlist-element" | "element-decl" | "doctype-name" => Some(chars::is_qname(s)),
+        "pi-target" | "entity" | "notation" => {
             if s.contains(':') {
                 None // XML 1.0 says Name, Namespaces says NCName: not judged
             } else {
@@ -170,7 +177,8 @@ impl Property for C18 {
          enumerating all 1,112,064 Unicode scalar values against interval tables transcribed from productions [2],[4],[4a],[13],[81]; \
          part 2: candidate names = all strings up to length 2 (quick) / 3 (thorough) over class representatives, plus proptest-generated \
          strings of length 0-5, each placed as element name, attribute name, PI target, entity name (declaration + reference) or encoding \
-         name of a one-element document; expected accept iff QName / Name / EncName; part 2b: the same candidates handed to create_element, \
+         name of a one-element document, and as attribute name / element name of an ATTLIST declaration, element name of an ELEMENT declaration, notation name and \
+         document type name; expected accept iff QName / Name / EncName; part 2b: the same candidates handed to create_element, \
          create_attribute and create_processing_instruction of ONE document in each of the 6 orders, twice over (a verdict must not depend on earlier calls); Non-trivial = candidate is non-empty and not purely \
          ASCII letters (it contains a NameChar-only, colon, non-name or non-ASCII character); distinct by (usage, string)."
             .into()
@@ -203,7 +211,11 @@ impl Property for C18 {
             let s: String = idx.iter().map(|i| REPS[crate::engine::pick_index(*i, REPS.len())]).collect();
             factory_case(&s, o)
         });
-        prop_oneof![5 => name, 1 => enc, 2 => fac].boxed()
+        let decl = (0usize..DECL_USAGES.len(), proptest::collection::vec(any::<u16>(), 0..6)).prop_map(|(u, idx)| {
+            let s: String = idx.iter().map(|i| REPS[crate::engine::pick_index(*i, REPS.len())]).collect();
+            name_case(DECL_USAGES[u], &s)
+        });
+        prop_oneof![5 => name, 1 => enc, 2 => fac, 2 => decl].boxed()
     }
 
     fn fixed_cases(&self, tier: Tier) -> Vec<Json> {
@@ -219,6 +231,14 @@ impl Property for C18 {
         }
         for s in enumerate(ENC_REPS, maxlen) {
             v.push(name_case("encoding", &s));
+        }
+        for usage in DECL_USAGES {
+            for s in enumerate(REPS, 2) {
+                v.push(name_case(usage, &s));
+            }
+            for s in ["a:b:c", "a::b", ":a:", "xmlns", "xmlns:p", "xmlns:", "xmlns:a:b", "xml:lang", "p:xmlns"] {
+                v.push(name_case(usage, s));
+            }
         }
         // names that merely begin with a reserved word or with the namespace-declaration prefix are ordinary names
         for usage in &USAGES[..4] {
@@ -285,8 +305,10 @@ impl Property for C18 {
                     } else {
                         "colon-structure".to_string()
                     };
+                    // notation names are read by the same parser function as entity names: one root cause, one key
+                    let key_usage = if usage == "notation" && got && reason == "first-char-namechar-only" { "entity" } else { usage };
                     Verdict::fail(
-                        format!("c18.name.{}.{}.{}", usage, if got { "accepted" } else { "rejected" }, reason),
+                        format!("c18.name.{}.{}.{}", key_usage, if got { "accepted" } else { "rejected" }, reason),
                         format!("document {:?}: candidate {:?} (code points {}) is {} but the production says {}", text, s,
                             s.chars().map(|c| format!("U+{:04X}", c as u32)).collect::<Vec<_>>().join(" "),
                             if got { "accepted" } else { "rejected" }, if exp { "accept" } else { "reject" }),
